@@ -3,6 +3,7 @@
 -/
 import Depccg.OpsXml
 import Depccg.Print.More
+import Depccg.Print.Html
 import Depccg.GlueTree
 
 namespace Depccg
@@ -18,6 +19,13 @@ def pScored : P (Tree × Str) := fun ts => do
   let (s, ts) ← pStr ts
   let (t, ts) ← pTree ts
   pure ((t, s), ts)
+
+partial def encHSkel : HSkel → String
+  | .leaf w segs => "L " ++ encStr w ++ " " ++ toString segs.length ++
+      String.join (segs.map fun (a, b) => " " ++ encStr a ++ " " ++ encStr b)
+  | .node op segs kids => "N " ++ encStr op ++ " " ++ toString segs.length ++
+      String.join (segs.map fun (a, b) => " " ++ encStr a ++ " " ++ encStr b) ++ " " ++ toString kids.length ++
+      String.join (kids.map fun k => " " ++ encHSkel k)
 
 def fmtOf (name : String) : Option (Tree → Except Err Str) :=
   match name with
@@ -37,6 +45,22 @@ def dispatch (op : String) (ts : List String) : Option String :=
   | "deriv" => some (printOp derivOf ts)
   | "mathml_cat" => some (match pStr ts with
       | some (s, []) => "ok " ++ " ; ".intercalate ((mathmlCat s).map fun (a, b) => encStr a ++ " " ++ encStr b)
+      | _ => "bad-op")
+  | "html_sub" => some (printOp mathmlSubtree ts)
+  | "html_read" => some (match pTree ts with
+      | some (t, []) =>
+        match mathmlSubtree t with
+        | .ok s => (match readMathml s with | some sk => "ok " ++ encHSkel sk | none => "unreadable")
+        | .error e => "err " ++ e.name
+      | _ => "bad-op")
+  | "html_skel" => some (match pTree ts with
+      | some (t, []) => encExcept encHSkel (skelOf t)
+      | _ => "bad-op")
+  | "html" => some (match pList (pList pScored) ts with
+      | some (b, []) => encExcept encStr (toMathml (b.map fun l => l.map fun (t, sc) => (t, some sc)))
+      | _ => "bad-op")
+  | "html_plain" => some (match pList (pList pTree) ts with
+      | some (b, []) => encExcept encStr (toMathml (b.map fun l => l.map fun t => (t, none)))
       | _ => "bad-op")
   | "prolog_en" => some (match OpsXml.pBatch ts with
       | some (b, []) => encExcept encStr (prologEn b)
